@@ -16,7 +16,7 @@ from nverif.engine import Prop, Violation
 
 EPS = 2.0 ** -52
 DPS = 80
-C_EXACT = 50.0       # clause (i): C_EXACT * eps * kappa(V) * sum_j |w_j D_kj|
+C_EXACT = 400.0      # clause (i): C_EXACT * eps * kappa(V) * sum_j |w_j D_kj|  (worst seen 28)
 C_ZERO = 64.0        # "E_k == 0":  |E_k| <= C_ZERO * eps * sum_j |w_j| c h_j**k
 KAPPA_MAX = 1e12     # "numerically non-singular"
 PRESENT = 1e-40      # |D_k(h=1)| above this: the power k is present in the quotient (80 digits)
@@ -41,15 +41,23 @@ def documented_method_order(method, n, order):
 
 @st.composite
 def rule_case(draw):
-    method = draw(st.sampled_from(METHODS))
-    n = draw(st.integers(1, 10))
-    order = draw(st.integers(1, 10))
-    # 48 random bits -> uniform on (lo, hi]; st.floats would return the bounds 20 % of the time
-    lo, hi = draw(st.sampled_from([(1.05, 10.0), (1.05, 2.5)]))
-    u = (int.from_bytes(draw(st.binary(min_size=6, max_size=6)), 'big') + 1) / 2.0 ** 48
+    # One 8-byte draw for (method, n, order) and the ratio.  st.integers / st.floats return their
+    # bounds ~20 % of the time, and Hypothesis mutates examples by copying same-label draws onto
+    # each other; both would produce many duplicates of one configuration.
+    bits = int.from_bytes(draw(st.binary(min_size=8, max_size=8)), 'big')
+    idx = (bits >> 48) % 400
+    method, n, order = METHODS[idx // 100], (idx // 10) % 10 + 1, idx % 10 + 1
+    lo, hi = 1.05, (10.0 if draw(st.booleans()) else 2.5)
+    u = ((bits & (2 ** 48 - 1)) + 1) / 2.0 ** 48          # uniform on (0, 1]
     ratio = min(max(lo + (hi - lo) * u, 1.0500000000000003), hi)
     x0 = draw(st.sampled_from([0.0, 1.0, -0.75])) if draw(st.booleans()) else draw(st.floats(-3.0, 3.0))
-    coefs = [float(draw(st.integers(-9, 9))) for _ in range(n + order)]
+    # one draw for all coefficients (digits in base 19): Hypothesis mutates examples by copying
+    # same-label draws onto each other, which would produce many duplicates of one configuration
+    code = draw(st.integers(0, 19 ** (n + order) - 1))
+    coefs = []
+    for _ in range(n + order):
+        code, dgt = divmod(code, 19)
+        coefs.append(float(dgt - 9))
     return dict(method=method, n=n, order=order, ratio=ratio, src='random', x0=x0, coefs=coefs)
 
 
@@ -89,7 +97,7 @@ class C06(Prop):
         'C_EXACT*eps*kappa(V)*sum_j|w_j D_kj|; constants calibrated >= 10x above the worst ratio '
         'over 8 quick seeds (see worst_ratios)')
     constants = {'C_EXACT': C_EXACT, 'C_ZERO': C_ZERO, 'KAPPA_MAX': KAPPA_MAX, 'digits': DPS}
-    examples = {'quick': 125, 'thorough': 3750}
+    examples = {'quick': 250, 'thorough': 3750}
 
     def strategy(self, tier):
         return rule_case()
